@@ -56,6 +56,9 @@ var transTargets = []transTarget{
 	{"chainimport", "headersImport", "determineDivergenceSyncModes", "determineDivergenceSyncModes"},
 	{"chainimport", "headersImport", "determineProcessingRegions", "determineProcessingRegions"},
 	{"", "ChainService", "prepareCFiltersQuery", "prepareCFiltersQuery"},
+	{"headerfs", "", "readHeadersFromFile", "readHeadersFromFile"},
+	{"headerfs", "blockHeaderStore", "FetchHeaderAncestors", "blockHeaderStore_FetchHeaderAncestors"},
+	{"headerfs", "filterHeaderStore", "FetchHeaderAncestors", "filterHeaderStore_FetchHeaderAncestors"},
 	{"query", "peerRanking", "AddPeer", "peerRanking_AddPeer"},
 	{"query", "peerRanking", "Punish", "peerRanking_Punish"},
 	{"query", "peerRanking", "Reward", "peerRanking_Reward"},
@@ -68,6 +71,9 @@ var transExtReal = map[string]bool{
 	"github.com/btcsuite/btcd/chainhash/v2": true,
 	"github.com/btcsuite/btcd/wire/v2":      true,
 }
+
+// standard packages the translator needs signatures of (type-checked from GOROOT's sources)
+var transStd = map[string]bool{"bytes": true, "io": true}
 
 var extRealOn bool
 
@@ -217,6 +223,7 @@ type tfunc struct {
 	named   []types.Object // named results
 	params  []string       // "(p1 : T)" in order, Go params
 	pnames  []string
+	havoc   []havoc // slices handed to untranslated callees by the statement being translated
 	elem    map[types.Object]elemSubst
 	owned   map[types.Object]bool
 	text    block
@@ -780,6 +787,19 @@ func (t *tfunc) prepass() {
 		call bool
 	}
 	items := map[string]item{}
+	// calls inside a return statement: nothing can look at their arguments afterwards
+	inReturn := map[*ast.CallExpr]bool{}
+	ast.Inspect(t.fd.Body, func(n ast.Node) bool {
+		if r, ok := n.(*ast.ReturnStmt); ok {
+			ast.Inspect(r, func(x ast.Node) bool {
+				if c, ok := x.(*ast.CallExpr); ok {
+					inReturn[c] = true
+				}
+				return true
+			})
+		}
+		return true
+	})
 	var walk func(n ast.Node) bool
 	walk = func(n ast.Node) bool {
 		switch v := n.(type) {
@@ -832,6 +852,18 @@ func (t *tfunc) prepass() {
 					typ = strings.Join(ats, " → ") + " → " + paren(rt)
 				}
 				items[key] = item{key, typ, true}
+				// a slice / map handed to an untranslated callee may be written by it: what it holds
+				// afterwards is one more (unconstrained) function of the same arguments
+				for i, a := range v.Args {
+					if t.refArg(a) && !inReturn[v] {
+						hk := fmt.Sprintf("%s ⇒ contents of argument %d afterwards", key, i+1)
+						ht := paren(t.g.leanType(typeOf(t.pi, a)))
+						if len(ats) > 0 {
+							ht = strings.Join(ats, " → ") + " → " + ht
+						}
+						items[hk] = item{hk, ht, true}
+					}
+				}
 				if recvArg != nil {
 					ast.Inspect(recvArg, walk)
 				}
@@ -961,3 +993,27 @@ func constLit(v constant.Value) (string, bool) {
 }
 
 var _ = token.ADD
+
+type havoc struct {
+	arg  ast.Expr
+	term string // the callee's havoc function applied to the call's arguments
+}
+
+// refArg: a slice- or map-typed local variable used as a call argument
+func (t *tfunc) refArg(a ast.Expr) bool {
+	ty := typeOf(t.pi, a)
+	if ty == nil {
+		return false
+	}
+	switch ty.Underlying().(type) {
+	case *types.Slice, *types.Map:
+	default:
+		return false
+	}
+	id, ok := ast.Unparen(a).(*ast.Ident)
+	if !ok {
+		return false
+	}
+	v, ok := t.info().Uses[id].(*types.Var)
+	return ok && v.Parent() != t.pi.pkg.Scope()
+}
